@@ -76,6 +76,8 @@ pub struct Check {
     pub unlisted: BTreeMap<String, (u64, String)>,
     pub known_hits: BTreeMap<String, u64>,
     pub coverage: Map<String, Value>,
+    /// prepended to every coverage key set from now on (a second engine run inside the same check)
+    pub cov_prefix: String,
     pub assumptions: Vec<String>,
     pub samples: Vec<Value>,
     pub machinery_errors: Vec<String>,
@@ -106,6 +108,7 @@ impl Check {
             unlisted: BTreeMap::new(),
             known_hits: BTreeMap::new(),
             coverage: Map::new(),
+            cov_prefix: String::new(),
             assumptions: vec![],
             samples: vec![],
             machinery_errors: vec![],
@@ -172,7 +175,7 @@ impl Check {
     }
 
     pub fn cov(&mut self, key: &str, v: Value) {
-        self.coverage.insert(key.to_string(), v);
+        self.coverage.insert(format!("{}{}", self.cov_prefix, key), v);
     }
 
     pub fn cov_add(&mut self, key: &str, n: u64) {
